@@ -119,6 +119,23 @@ func BroadcastSources(dst []int) [][]int {
 	return out
 }
 
+// BigShape: a random shape with sizes up to 7 (rank minRank..4, at most maxElems elements): the
+// enumerated families stop at size 3, these sampled ones reach the larger extents.
+func BigShape(r *rand.Rand, minRank, maxElems int) []int {
+	for {
+		s := RandShape(r, minRank, 4, 7)
+		if ref.Prod(s) <= maxElems {
+			big := len(s) == 0
+			for _, d := range s {
+				big = big || d > 3
+			}
+			if big {
+				return s
+			}
+		}
+	}
+}
+
 func shapeKey(s []int) string { return strings.ReplaceAll(fmt.Sprint(s), " ", ",") }
 
 func rankOf(s []int) int { return len(s) }
